@@ -6,7 +6,7 @@ import torch
 
 from harness.core.conv import bits2f, f2bits
 
-AXIS_ORDER = 'zyx'  # re-read from the source by extract_consts; asserted in the checks
+from mrpro.data.Rotation import AXIS_ORDER  # the documented component order ('zyx'); read from the code under test
 
 
 def letter_index(letter: str) -> int:
